@@ -470,6 +470,72 @@ def rand_hyp(rng):
                 cls="bins")
 
 
+RICHER = {"F81": ["HKY85", "GTR"], "HKY85": ["TN93", "GTR"], "TN93": ["GTR"], "GTR": []}
+HYP_DIFFS = ["time_het=max", "time_het=edges", "param_rules", "model", "model+time_het=max", "model,both time_het=edges",
+             "time_het edges->max", "model,both time_het=max"]
+
+
+def hyp_opts_case(seqs, tree, edges, rng, null_sm, diff, app="hypothesis", sequential=True, init_alt=None, max_evaluations=10):
+    """one (null, alt) pair of model apps differing by `diff`; the alternate always nests the null"""
+    es = sorted(rng.sample(edges, rng.randint(1, len(edges) - 1)))
+    th_edges = [dict(edges=es, is_independent=rng.random() < 0.25 and len(es) > 1)]
+    alt_sm = null_sm
+    if diff.startswith("model"):
+        if not RICHER[null_sm]:
+            null_sm = "HKY85"
+        alt_sm = rng.choice(RICHER[null_sm])
+    elif null_sm == "F81":
+        null_sm = alt_sm = "HKY85"  # F81 has no rate parameter to scope
+    null, alt = dict(sm=null_sm, name="null"), dict(sm=alt_sm, name="alt")
+    if diff in ("time_het=max", "model+time_het=max"):
+        alt["app_args"] = dict(time_het="max")
+    elif diff == "time_het=edges":
+        alt["app_args"] = dict(time_het=th_edges)
+    elif diff == "param_rules":
+        par = rng.choice(RATE_PARAMS[alt_sm])
+        alt["app_args"] = dict(param_rules=[dict(par_name=par, edges=es)])
+    elif diff == "model,both time_het=edges":
+        th = [dict(edges=es, is_independent=False)]
+        null["app_args"], alt["app_args"] = dict(time_het=th), dict(time_het=th)
+    elif diff == "time_het edges->max":
+        null["app_args"], alt["app_args"] = dict(time_het=[dict(edges=es, is_independent=False)]), dict(time_het="max")
+    elif diff == "model,both time_het=max":
+        null["app_args"], alt["app_args"] = dict(time_het="max"), dict(time_het="max")
+    c = dict(kind="hyp", seqs=seqs, tree=tree, null=null, alts=[alt], opt=dict(max_evaluations=max_evaluations, limit_action="ignore"),
+             cls="opts", diff=diff, app=app, sequential=sequential)
+    if init_alt:
+        c["init_alt"] = init_alt
+    return c
+
+
+def rand_hyp_opts(rng):
+    n = rng.choice([3, 4, 4, 5])
+    tree = rng.choice(TREES[n])
+    seqs = rand_nuc_aln(rng, n, rng.choice([30, 60]))
+    return hyp_opts_case(seqs, tree, edge_names(tree), rng, rng.choice(["HKY85", "HKY85", "TN93", "GTR", "F81"]), rng.choice(HYP_DIFFS),
+                         app=rng.choice(["hypothesis", "hypothesis", "model_collection"]), sequential=rng.random() < 0.8,
+                         init_alt="identity" if rng.random() < 0.12 else None, max_evaluations=rng.choice([3, 10, 25, 60]))
+
+
+def corpus_hyp_opts():
+    """alternates that differ from the null ONLY by scope, small evaluation limits (always run)"""
+    rng = random.Random(5)
+    seqs = rand_nuc_aln(rng, 4, 60)
+    tree = "((a,b),c,d)"
+    edges = edge_names(tree)
+    out = [
+        hyp_opts_case(seqs, tree, edges, rng, "HKY85", "time_het=max", max_evaluations=10),
+        hyp_opts_case(seqs, tree, edges, rng, "GTR", "time_het=max", app="model_collection", max_evaluations=40),
+        hyp_opts_case(seqs, tree, edges, rng, "HKY85", "time_het=edges", max_evaluations=10),
+        hyp_opts_case(seqs, tree, edges, rng, "TN93", "param_rules", max_evaluations=10),
+        hyp_opts_case(seqs, tree, edges, rng, "HKY85", "model+time_het=max", max_evaluations=10),
+        hyp_opts_case(seqs, tree, edges, rng, "HKY85", "time_het edges->max", max_evaluations=25),
+        hyp_opts_case(seqs, tree, edges, rng, "HKY85", "time_het=max", sequential=False, max_evaluations=10),
+        hyp_opts_case(seqs, tree, edges, rng, "HKY85", "time_het=max", init_alt="identity", max_evaluations=10),
+    ]
+    return out
+
+
 def rand_lfopt(rng):
     n = rng.choice([3, 4, 4])
     tree = rng.choice(TREES[n])
@@ -526,28 +592,71 @@ def oracle_nested(c, r):
     return bad
 
 
+def hyp_label(c):
+    """(null model, alternate models, differing-by, app, sequential, init_alt) for the evidence"""
+    def th(spec):
+        t = spec.get("app_args", {}).get("time_het")
+        extra = []
+        if t is not None:
+            extra.append("time_het=max" if t == "max" else "time_het=edges")
+        if spec.get("app_args", {}).get("param_rules"):
+            extra.append("param_rules")
+        if spec.get("lf_args"):
+            extra.append("bins")
+        return spec["sm"] + ("[" + ",".join(extra) + "]" if extra else "")
+    return (f"{th(c['null'])} -> {' -> '.join(th(a) for a in c['alts'])} | {c.get('diff', c['cls'])} | {c.get('app', 'hypothesis')} | "
+            f"sequential={c.get('sequential', True)} | init_alt={c.get('init_alt')}")
+
+
 def oracle_hyp(c, r):
-    """LR >= 0 along the chain; a negative LR is classified by what happened at the sequential initialisation"""
-    if "not_completed" in r or "exc" in r:
+    """hypothesis / model_collection on nested chains.  With sequential initialisation (and no init_alt) every
+    alternate must really have been initialised from the preceding fit: initialise_from_nested was called, did not
+    raise (app.evo._InitFrom swallows every exception), reproduced the lnL, the alternate still had that lnL when
+    its optimisation started, and so lnL never decreases along the chain (LR >= 0).  In every configuration no
+    optimise call may lose likelihood."""
+    if "not_completed" in r or ("exc" in r and "lnL" not in r):
         return [(f"hyp:not-completed:{c['cls']}", str(r)[:300])]
     bad = []
+    for p in r["per"]:
+        for s0, e0 in p["opt"]:
+            if e0 is not None and e0 < s0 - MONO_TOL:
+                bad.append(("hyp:optimise-lost-likelihood", f"an optimise call inside the app went from lnL {s0} to {e0}"))
+    if not (c.get("sequential", True) and c.get("init_alt") is None):
+        return bad  # alternates start from defaults by request: with an evaluation limit LR may legitimately be negative
     for i in range(1, len(r["lnL"])):
-        if r["lnL"][i] < r["lnL"][i - 1] - EQ_TOL:
-            ini = r["init"][i - 1] if len(r.get("init", [])) >= i else None
-            if ini is None:
-                cause = "alternate-not-initialised-from-null"
-            elif "exc" in ini:
-                cause = "init-raised:" + ini["exc"]
-            elif ini["slack_init"] is not None and ini["slack_init"] <= 1e-12:
-                # the nested optimum lies outside the alternate's declared bounds (it was clipped): within the bounded
-                # parameter spaces the pair is not nested, the specification is silent
-                continue
-            elif abs(ini["lnL_init"] - ini["lnL_nested"]) > EQ_TOL:
-                cause = "init-lnL-differs"
-            else:
-                cause = "optimiser-lost-likelihood"
-            bad.append((f"hyp:LR-negative:{cause}", f"lnL {r['lnL']} (nfp {r['nfp']}): LR = {2 * (r['lnL'][i] - r['lnL'][i - 1])}; "
-                                                    f"sequential initialisation: {ini}"))
+        p = r["per"][i]
+        ini = p["init"][-1] if p["init"] else None
+        prev = r["lnL"][i - 1]
+        start = p["opt"][-1][0] if p["opt"] else None
+        refused = ini is not None and ini.get("exc") == "NotImplementedError" and c["cls"] == "bins"
+        clipped = ini is not None and "exc" not in ini and ini["slack_init"] is not None and ini["slack_init"] <= 1e-12
+        cause = None
+        if ini is None:
+            cause = "alternate-not-initialised-from-null"
+            bad.append(("hyp:alternate-not-initialised-from-null", f"model {i}: initialise_from_nested was never called on it"))
+        elif "exc" in ini:
+            cause = "init-raised:" + ini["exc"]
+            if not refused:
+                bad.append((f"hyp:init-swallowed:{ini['exc']}", f"model {i}: initialise_from_nested raised {ini['exc']} on a nested "
+                                                                f"pair (nfp {ini['nfp_nested']} -> {ini['nfp_self']}) and the app "
+                                                                "swallowed it: the alternate starts from defaults"))
+        elif clipped:
+            # the nested optimum lies outside the alternate's declared bounds (clipped): not nested within the bounds
+            continue
+        elif abs(ini["lnL_init"] - ini["lnL_nested"]) > EQ_TOL:
+            cause = "init-lnL-differs"
+            bad.append(("hyp:init-lnL-differs", f"model {i}: lnL after initialisation {ini['lnL_init']} != nested {ini['lnL_nested']}"))
+        elif abs(ini["lnL_nested"] - prev) > EQ_TOL:
+            cause = "initialised-from-another-model"
+            bad.append(("hyp:initialised-from-another-model", f"model {i} was initialised from a function with lnL "
+                                                              f"{ini['lnL_nested']}, the preceding fit has {prev}"))
+        elif start is not None and start < prev - EQ_TOL:
+            cause = "changed-after-init"
+            bad.append(("hyp:alt-start-below-null:changed-after-init",
+                        f"model {i}: lnL {start} when its optimisation started, preceding model finished at {prev}"))
+        if r["lnL"][i] < prev - EQ_TOL:
+            bad.append((f"hyp:LR-negative:{cause or 'optimiser-lost-likelihood'}",
+                        f"lnL {r['lnL']} (nfp {r['nfp']}): LR = {2 * (r['lnL'][i] - prev)}; sequential initialisation: {ini}"))
             break
     return bad
 
@@ -867,8 +976,8 @@ def compare_nested_logic(rep, pmap_cases, pmap_out, scoped_cases, scoped_out, pr
 
 def tier_sizes(tier):
     if tier == "quick":
-        return dict(wrap=1500, real=60, nested=26, nested_codon=2, hyp=6, lfopt=16, pmap=300, scoped=400)
-    return dict(wrap=20000, real=1500, nested=700, nested_codon=40, hyp=160, lfopt=500, pmap=4000, scoped=5000)
+        return dict(wrap=1500, real=60, nested=26, nested_codon=2, hyp=6, hyp_opts=16, lfopt=16, pmap=300, scoped=400)
+    return dict(wrap=20000, real=1500, nested=700, nested_codon=40, hyp=160, hyp_opts=400, lfopt=500, pmap=4000, scoped=5000)
 
 
 def run(tier: str, seed: int) -> int:
@@ -909,10 +1018,11 @@ def run(tier: str, seed: int) -> int:
     pmap_cases += [rand_pmap(rng) for _ in range(sz["pmap"])]
     scoped_cases = [rand_scoped(rng) for _ in range(sz["scoped"])]
     light = wrap_cases + real_cases + pmap_cases + scoped_cases
-    heavy = corpus_nested() + corpus_hyp()
+    heavy = corpus_nested() + corpus_hyp() + corpus_hyp_opts()
     heavy += [rand_nested(rng, tier) for _ in range(sz["nested"])]
     heavy += [rand_nested(rng, tier, codon=True) for _ in range(sz["nested_codon"])]
     heavy += [rand_hyp(rng) for _ in range(sz["hyp"])]
+    heavy += [rand_hyp_opts(rng) for _ in range(sz["hyp_opts"])]
     heavy += [rand_lfopt(rng) for _ in range(sz["lfopt"])]
 
     # ---------------- run the implementation
@@ -929,7 +1039,7 @@ def run(tier: str, seed: int) -> int:
     disagreements = []
     counts = dict(wrap=0, real=0, pmap=0, scoped=0, nested=0, hyp=0, lfopt=0)
     nontrivial = set()
-    dist = dict(wrap_endings={}, wrap_local={}, nested_classes={}, hyp_classes={}, lfopt_modes={})
+    dist = dict(wrap_endings={}, wrap_local={}, nested_classes={}, hyp_classes={}, hyp_pairs={}, nested_pairs={}, lfopt_modes={})
 
     # ---------------- (a) wrapper: model vs implementation vs oracle
     ok_idx = [i for i, r in enumerate(wrap_out) if "obs" in r]
@@ -995,11 +1105,14 @@ def run(tier: str, seed: int) -> int:
             continue
         if k == "nested":
             dist["nested_classes"][c["cls"]] = dist["nested_classes"].get(c["cls"], 0) + 1
+            npair = f"{c['null']['sm']}{'[scoped]' if c['null'].get('rules') else ''} -> {c['alt']['sm']}{'[scoped]' if c['alt'].get('rules') else ''} | {c['cls']}"
+            dist["nested_pairs"][npair] = dist["nested_pairs"].get(npair, 0) + 1
             bad = oracle_nested(c, r)
             if not bad and "lnL_alt_fit" in r:
                 nontrivial.add(json.dumps(["nested", c["null"], c["alt"], c["tree"], r["lnL_null"]]))
         elif k == "hyp":
             dist["hyp_classes"][c["cls"]] = dist["hyp_classes"].get(c["cls"], 0) + 1
+            dist["hyp_pairs"][hyp_label(c)] = dist["hyp_pairs"].get(hyp_label(c), 0) + 1
             bad = oracle_hyp(c, r)
             if not bad:
                 nontrivial.add(json.dumps(["hyp", c["null"], c["alts"], r.get("lnL")]))
